@@ -59,6 +59,10 @@ and `Ref.eval`/`Ref.runProgram` themselves:
                                   `prepareCall`, `removeScope`s, `goto 0`): guard passes ⇒ the rest of the
                                   activation is the ordinary application of the same closure; guard fails ⇒
                                   the ordinary call behind the jump.
+* `compile_correct_on_F3lazy`, `lazy_semantics_on_F3lazy` — F3-lazy: F2/F2c with lazy parameters (`#p`) and
+                                  `force`: lazy argument object ↔ thunk (`Sim.LzOk`), `Force` (compile at force
+                                  time, helper on the captured stack, restore, memo) ↔ `Ref.force`
+                                  (`Sim.force_sim`); C16's `LazySemantics` restricted to the fragment.
 
 `compile_correct_partial` (below) says what is proved of the semantic statement and names
 the unproved remainder (`CompileCorrectOutsideProved`).
@@ -72,6 +76,7 @@ import ZygoVerif.Proofs.SimFcTop
 import ZygoVerif.Proofs.SimF2Top
 import ZygoVerif.Proofs.SimF2BrkTop
 import ZygoVerif.Proofs.SimF2TailTop
+import ZygoVerif.Props.C16
 namespace ZygoVerif.C02
 open ZygoVerif.Core ZygoVerif.VM
 
@@ -1178,11 +1183,12 @@ theorem tail_call_simulates {k : Nat} {self h : String} {args : List Expr} (hh :
     {m₁ : Nat → Nat} {s₁ : St} {rs₁ : Ref.St} {env vid : Nat} {D : List (Option Val)} {m : Nat → Nat} {s : St} {rs : Ref.St}
     {cenv : Nat} {pre post : List Instr}
     (hact : InAct m₁ s₁ rs₁ env vid D c.scopes m s rs) (hnargs : (fnOf s₁ vid).nargs = ps.length)
-    (hva : (fnOf s₁ vid).varargs = rest.isSome)
+    (hva : (fnOf s₁ vid).varargs = rest.isSome) (hpa : (fnOf s₁ vid).params = ps ++ rest.toList)
     (hrel : RelF m s rs cenv) (hseg : Seg s pre r.1.1 post) :
     SimT r.1.1 s₁ env D m s rs cenv (Ref.eval (k + 2) (.call (.sym h) args) cenv rs) := by
-  obtain ⟨_, _, _, hA, hU, _, _, _, _, _, _, hV, _⟩ := fclaims (k + 1)
-  exact simT_selfcall hV hA hU hh hhead hfa hself isFn c gs r hc hfn hkn hps hact hnargs hva hrel hseg
+  obtain ⟨_, _, _, hA, hU, _, _, _, _, _, _, hV, _, _, _, _, _, _, _, _, _, hlow⟩ := fclaims (k + 1)
+  exact simT_selfcall hV hA hU (fclaimG (fun j hj => hlow j (Nat.lt_succ_of_lt hj)) hA) hh hhead hfa hself isFn c gs r hc hfn
+    hkn hps hact hnargs hva hpa hrel hseg
 
 /-- **`CompileCorrect` for F2c**: program texts of top-level statements whose loops may `break`/`continue`
 (`Fx [] ""`, so every program of Fx) and top-level `defn`s whose bodies (`FzList true`) call the function
@@ -1336,16 +1342,161 @@ example : ∃ fuel' t, obsOfRef (Ref.runProgram 30 demoTailRebind Ref.initSt).1 
   | brk l rs' => rw [hres] at h; simp [refClass] at h
   | cont l rs' => rw [hres] at h; simp [refClass] at h
 
+/-! ## F3 (lazy parameters): `#p` formals and `force` -/
+
+/-- value and number of trace entries of a reference run -/
+def refVT (r : Ref.R Val) : Option (Val × Nat) :=
+  match r with
+  | .ok v rs => some (v, rs.trace.length)
+  | _ => none
+
+theorem truthy_bool (b : Bool) : truthy (.bool b) = b := rfl
+
+macro "ref_eval" d:ident : tactic =>
+  `(tactic| simp [$d:ident, Ref.evalBegin, Ref.eval, Ref.evalArgs, Ref.applyFn, Ref.bindParams, Ref.newFrame, Ref.evalCond, Ref.force,
+    Ref.define, Ref.setVar, Ref.lookup, Ref.lookupIn, Ref.initSt, Ref.assocSet, Ref.globalNames, coreBuiltins,
+    refVT, List.lookup, prim, isFunction, allInts, intOfLit, Ref.isLazyParam, rebindOk, tyOf, isCmp, compareVals,
+    cmpResult, truthy_bool])
+
+/-- `(defn f [#x y] (cond (> y 0) (force #x) 0)) (f (trace 5) 1) (f (trace 7) 0)`: the operand at the lazy
+position is evaluated only when forced — one trace entry, not two -/
+def demoLazy : List Expr :=
+  [.defn "f" ["#x", "y"] none [.cond [(.call (.sym ">") [.sym "y", .int 0], .call (.sym "force") [.sym "#x"])] (.int 0)],
+   .call (.sym "f") [.call (.sym "trace") [.int 5], .int 1],
+   .call (.sym "f") [.call (.sym "trace") [.int 7], .int 0]]
+
+/-- `(defn g [#x] (+ (force #x) (force #x))) (g (trace 3))`: forced twice, evaluated once (the memo) -/
+def demoLazyMemo : List Expr :=
+  [.defn "g" ["#x"] none [.call (.sym "+") [.call (.sym "force") [.sym "#x"], .call (.sym "force") [.sym "#x"]]],
+   .call (.sym "g") [.call (.sym "trace") [.int 3]]]
+
+/-- `(def a 1) (defn h [#x] (def a 10) (force #x)) (h (+ a 1))`: forced in the callee, evaluated in the caller's
+environment — 2, not 11 -/
+def demoLazyEnv : List Expr :=
+  [.def_ "a" (.int 1),
+   .defn "h" ["#x"] none [.def_ "a" (.int 10), .call (.sym "force") [.sym "#x"]],
+   .call (.sym "h") [.call (.sym "+") [.sym "a", .int 1]]]
+
+/-- `(defn lp [#x n] (cond (== n 0) (force #x) (lp (trace n) (- n 1)))) (lp 0 2)`: a lazy operand of a self
+tail call (`PushLazyArgInstr` among the inline operands) captures the scopes of the activation the jump then
+drops; forced in the last activation it still sees `n = 1` -/
+def demoLazyTail : List Expr :=
+  [.defn "lp" ["#x", "n"] none [.cond [(.call (.sym "==") [.sym "n", .int 0], .call (.sym "force") [.sym "#x"])]
+      (.call (.sym "lp") [.call (.sym "trace") [.sym "n"], .call (.sym "-") [.sym "n", .int 1]])],
+   .call (.sym "lp") [.int 0, .int 2]]
+
+theorem demoLazy_in : FtList demoLazy = true := by ft_mem2 demoLazy
+theorem demoLazyMemo_in : FtList demoLazyMemo = true := by ft_mem2 demoLazyMemo
+theorem demoLazyEnv_in : FtList demoLazyEnv = true := by ft_mem2 demoLazyEnv
+theorem demoLazyTail_in : FyList demoLazyTail = true := by fy_mem demoLazyTail
+
+set_option maxRecDepth 8000 in
+theorem demoLazy_ref :
+    refVT (Ref.evalBegin 20 demoLazy 0 { Ref.initSt with trace := [] }) = some (.int 0#64, 1) := by
+  ref_eval demoLazy
+set_option maxRecDepth 8000 in
+theorem demoLazyMemo_ref :
+    refVT (Ref.evalBegin 20 demoLazyMemo 0 { Ref.initSt with trace := [] }) = some (.int 6#64, 1) := by
+  ref_eval demoLazyMemo
+set_option maxRecDepth 8000 in
+theorem demoLazyEnv_ref :
+    refVT (Ref.evalBegin 20 demoLazyEnv 0 { Ref.initSt with trace := [] }) = some (.int 2#64, 0) := by
+  ref_eval demoLazyEnv
+set_option maxRecDepth 8000 in
+theorem demoLazyTail_ref :
+    refVT (Ref.evalBegin 40 demoLazyTail 0 { Ref.initSt with trace := [] }) = some (.int 1#64, 1) := by
+  ref_eval demoLazyTail
+
+/-- **`CompileCorrect` for F3-lazy**: the programs of F2 and F2c, whose `fn`/`defn` may declare lazy parameters
+(`#p`: the operand at that position is not evaluated at the call — `PrepareCallExprArgs` or, in a self tail
+call, `PushLazyArgInstr` makes a lazy argument object holding the expression, the scope stack and the function
+of the call site; the reference evaluator a thunk holding the expression and the frame) and may call `force`
+(on a lazy argument: the expression is compiled then, run as a helper function on the captured stack with the
+live stack set aside, the control state restored, the value memoised in the same slot of both tables; on any
+other value: the value). Lazy values may be passed on, stored, returned, forced later or never, forced from
+inside another force. `Sim.RelF.lz` relates the two tables (`Sim.LzOk`: same expression, the captured stack is
+the static chain of the thunk's frame, memos related); `Sim.force_sim`/`Sim.fclaimG` is the simulation of
+`force`, by induction on the reference fuel (the thunk's expression is evaluated with less fuel than the call). -/
+theorem compile_correct_on_F3lazy : CompileCorrectOn (fun p => FtList p = true ∨ FyList p = true) :=
+  fun p hp => hp.elim (compile_correct_on_F2 p) (compile_correct_on_F2c p)
+
+/-- an instance of `compile_correct_on_F3lazy` from a value and a trace length of the reference run -/
+theorem lazy_instance (fuel : Nat) (p : List Expr) (hp : FtList p = true ∨ FyList p = true) (hwf : Ref.wfList {} p = true)
+    (v : Val) (k : Nat) (h : refVT (Ref.evalBegin fuel p 0 { Ref.initSt with trace := [] }) = some (v, k)) :
+    ∃ fuel' val t, t.length = k ∧ obsOfRef (Ref.runProgram fuel p Ref.initSt).1 = some (.ok val t)
+      ∧ obsOfVM (VM.runText fuel' p VM.initSt).1 = some (.ok val t) := by
+  cases hres : Ref.evalBegin fuel p 0 { Ref.initSt with trace := [] } with
+  | ok v' rs' =>
+    have ho : obsOfRef (Ref.runProgram fuel p Ref.initSt).1 = some (.ok (pr rs'.heap v') rs'.trace) := by
+      unfold Ref.runProgram; simp only [hres]; rfl
+    obtain ⟨f, hf⟩ := compile_correct_on_F3lazy p hp hwf fuel _ ho
+    rw [hres] at h
+    simp only [refVT, Option.some.injEq, Prod.mk.injEq] at h
+    exact ⟨f, _, _, h.2, ho, hf⟩
+  | err rs' => rw [hres] at h; simp [refVT] at h
+  | timeout => rw [hres] at h; simp [refVT] at h
+  | brk l rs' => rw [hres] at h; simp [refVT] at h
+  | cont l rs' => rw [hres] at h; simp [refVT] at h
+
+/-- the four programs above, on the machine: the same value, the same trace (of the stated length) -/
+example : ∃ fuel' val t, t.length = 1 ∧ obsOfRef (Ref.runProgram 20 demoLazy Ref.initSt).1 = some (.ok val t)
+    ∧ obsOfVM (VM.runText fuel' demoLazy VM.initSt).1 = some (.ok val t) :=
+  lazy_instance 20 demoLazy (Or.inl demoLazy_in) (by decide) _ _ demoLazy_ref
+example : ∃ fuel' val t, t.length = 1 ∧ obsOfRef (Ref.runProgram 20 demoLazyMemo Ref.initSt).1 = some (.ok val t)
+    ∧ obsOfVM (VM.runText fuel' demoLazyMemo VM.initSt).1 = some (.ok val t) :=
+  lazy_instance 20 demoLazyMemo (Or.inl demoLazyMemo_in) (by decide) _ _ demoLazyMemo_ref
+example : ∃ fuel' val t, t.length = 0 ∧ obsOfRef (Ref.runProgram 20 demoLazyEnv Ref.initSt).1 = some (.ok val t)
+    ∧ obsOfVM (VM.runText fuel' demoLazyEnv VM.initSt).1 = some (.ok val t) :=
+  lazy_instance 20 demoLazyEnv (Or.inl demoLazyEnv_in) (by decide) _ _ demoLazyEnv_ref
+example : ∃ fuel' val t, t.length = 1 ∧ obsOfRef (Ref.runProgram 40 demoLazyTail Ref.initSt).1 = some (.ok val t)
+    ∧ obsOfVM (VM.runText fuel' demoLazyTail VM.initSt).1 = some (.ok val t) :=
+  lazy_instance 40 demoLazyTail (Or.inr demoLazyTail_in) (by decide) _ _ demoLazyTail_ref
+
+/-- **C16's `LazySemantics` on the fragment**: the statement of `Props/C16.lean` (`C16.LazySemantics`, in that
+file's vocabulary) restricted to the programs of F3-lazy. -/
+theorem lazy_semantics_on_F3lazy (p : List Expr) (hp : FtList p = true ∨ FyList p = true) (hwf : Ref.wfList {} p = true)
+    (fuel : Nat) (o : C16.Obs) (ho : C16.obsOfRef (Ref.runProgram fuel p Ref.initSt).1 = some o) :
+    ∃ fuel', C16.obsOfVM (VM.runText fuel' p VM.initSt).1 = some o := by
+  have key : ∀ o2 : Obs, obsOfRef (Ref.runProgram fuel p Ref.initSt).1 = some o2 →
+      ∃ fuel', obsOfVM (VM.runText fuel' p VM.initSt).1 = some o2 := compile_correct_on_F3lazy p hp hwf fuel
+  have conv : ∀ (out : VM.Outcome) (v : String) (t : List String), obsOfVM out = some (.ok v t) → C16.obsOfVM out = some (.ok v t) := by
+    intro out v t h
+    unfold obsOfVM at h
+    split at h
+    · injection h with h; injection h with h1 h2; subst h1; subst h2; rfl
+    · cases h
+    · cases h
+  have conve : ∀ (out : VM.Outcome) (t : List String), obsOfVM out = some (.err t) → C16.obsOfVM out = some (.err t) := by
+    intro out t h
+    unfold obsOfVM at h
+    split at h
+    · cases h
+    · injection h with h; injection h with h1; subst h1; rfl
+    · cases h
+  cases hr : (Ref.runProgram fuel p Ref.initSt).1 with
+  | ok v t =>
+    rw [hr] at ho
+    injection ho with ho; subst ho
+    obtain ⟨f, hf⟩ := key (.ok v t) (by rw [hr]; rfl)
+    exact ⟨f, conv _ v t hf⟩
+  | err t =>
+    rw [hr] at ho
+    injection ho with ho; subst ho
+    obtain ⟨f, hf⟩ := key (.err t) (by rw [hr]; rfl)
+    exact ⟨f, conve _ t hf⟩
+  | timeout => rw [hr] at ho; cases ho
+
 /-- the programs covered by a theorem: every top-level form in Fv, or every top-level form in Fc,
 or every top-level form in F2, or every top-level form in Fx (F2 with `break`/`continue` in top-level loops),
 or every top-level form in F2c (F2 forms and top-level `defn`s with self tail calls) -/
 def InProvedFragment (p : List Expr) : Prop :=
   FvList p = true ∨ FcList p = true ∨ FtList p = true ∨ FxTop p = true ∨ FyList p = true
 
-/-- **The part of `CompileCorrect` that is NOT proved**: programs that are in none of Fv, Fc, F2, Fx, F2c —
+/-- **The part of `CompileCorrect` that is NOT proved**: programs that are in none of Fv, Fc, F2, Fx, F2c
+(F2 and F2c include lazy parameters and `force`) —
 i.e. using a `fn`/`defn` inside
-an operand of a call (compiled at run time), with lazy parameters, a self call in
-a directly compiled non-tail position or in a nested `defn`, `map`/`apply`/`force`/`substitute`, computed call heads,
+an operand of a call (compiled at run time), a self call in
+a directly compiled non-tail position or in a nested `defn`, `map`/`apply`/`substitute`, computed call heads,
 `break`/`continue` inside the body of a nested function, an empty `newScope`, or (together with calls or
 array literals) a binder that re-uses a builtin name. Held by the 3-way `eval` correspondence on
 every run, not by a theorem. -/
@@ -1373,6 +1524,10 @@ def CompileCorrectOutsideProved : Prop := CompileCorrectOn (fun p => ¬ InProved
      (`Sim.Fz`: under `begin`/`cond`/`let`/`letseq`/`newScope`) and whose loops `break`/`continue`: the
      self-tail-call sequence with its guard, both paths (`Sim.SimT`, `Sim.RetOut`, `Sim.simT_selfcall`);
      loops with exits inside function bodies (`Sim.simF_stmt`) — `compile_correct_on_F2c`;
+   * F3-lazy — in F2 and F2c, `fn`/`defn` may declare lazy parameters (`#p`) and every program may call `force`:
+     operands at lazy positions are not evaluated at the call (ordinary call and self tail call), `force`
+     evaluates them once, in the environment of the call site, whenever and wherever it is called
+     (`Sim.force_sim`) — `compile_correct_on_F3lazy`, and in C16's vocabulary `lazy_semantics_on_F3lazy`;
    * for the effect-free sub-fragment F0c with explicit fuel on both sides — `compile_correct_F0c`;
 2. the full `CompileCorrect` follows from its restriction to the remaining programs
    (`CompileCorrectOutsideProved`, the precise unproved remainder);
@@ -1381,7 +1536,7 @@ def CompileCorrectOutsideProved : Prop := CompileCorrectOn (fun p => ¬ InProved
 MISSING (held by the `eval` correspondence only): `CompileCorrectOutsideProved` — `break`/`continue`
 inside the bodies of nested functions (`fn`, `defn` not at top level), the rest of F2
 (`fn`/`defn` inside operands), self tail calls and `break`/`continue` in nested functions,
-F3 (`map`/`apply`, lazy parameters). -/
+the rest of F3 (`map`/`apply`/`substitute`). -/
 theorem compile_correct_partial :
     CompileCorrectOn InProvedFragment
     ∧ (CompileCorrectOutsideProved → CompileCorrect)
